@@ -1238,3 +1238,30 @@ Proof.
   destruct r; try reflexivity. destruct (is_nil sc1) eqn:Hn; [reflexivity|].
   apply flush_consumes in E. destruct E as [(_ & ->)|E]; [discriminate|]. apply IH; lia.
 Qed.
+
+(* ------------------------------------------------------------------ poll_ready and the boundary *)
+Lemma poll_ready_below bp script w sent :
+  pbytes w < bp -> poll_ready bp script w sent = (WOk, w, sent, script).
+Proof. intros H. unfold poll_ready. replace (bp <=? pbytes w) with false by lia. reflexivity. Qed.
+
+Lemma poll_ready_at bp script w sent :
+  bp <= pbytes w -> poll_ready bp script w sent = flush script w sent.
+Proof. intros H. unfold poll_ready. replace (bp <=? pbytes w) with true by lia. reflexivity. Qed.
+
+Lemma poll_ready_to_boundary bp script w sent r w' sent' script' :
+  0 < bp -> pbytes w = lenN (qbytes w) ->
+  poll_ready bp script w sent = (r, w', sent', script') ->
+  (r = WOk -> pbytes w' < bp) /\
+  (pbytes w' < bp -> forall script2, poll_ready bp script2 w' sent' = (WOk, w', sent', script2)).
+Proof.
+  intros Hbp Hi H. split.
+  - intros ->. eapply backpressure; eauto.
+  - intros Hlt script2. apply poll_ready_below. exact Hlt.
+Qed.
+
+(* end of stream inside a frame *)
+Lemma poll_next_eof c st wire s :
+  Safe c st -> poll_next c st wire (EvEof :: s) = (RClosed, st, wire, s).
+Proof.
+  intros Hs. destruct (safe_want c st Hs) as (cap & Hw). cbn [poll_next]. rewrite Hw. reflexivity.
+Qed.
